@@ -20,9 +20,9 @@ def run(ctx):
     params = dict(C19.QUICK)
     if ctx.quick:       # the quick corpus A is a reduced C19 domain (C19 itself runs the larger one)
         params.update(INT_FULL=1, INT_MAX=2, INT_LONG=9, OID_FULL=1, OID_MAX=2, OID_LONG=3, BITS_FULL=1, BITS_MAX=2,
-                      LEN_FULL=2, LEN_MAX=3, TAG_FULL=2, TAG_MAX=3)
+                      LEN_FULL=2, LEN_MAX=3, LEN_SMALL=5, TAG_FULL=2, TAG_MAX=3)
     else:
-        params.update(INT_FULL=2, INT_MAX=4, OID_FULL=1, OID_MAX=4, BITS_FULL=1, BITS_MAX=4, LEN_FULL=3, LEN_MAX=5,
+        params.update(INT_FULL=2, INT_MAX=4, OID_FULL=1, OID_MAX=4, BITS_FULL=1, BITS_MAX=4, LEN_FULL=3, LEN_MAX=4, LEN_SMALL=7,
                       TAG_FULL=2, TAG_MAX=5, TIMEMENU='"full"')
     path, ncases, r = C19.gen(ctx, C19.KINDS, params, "DERGen (C19 corpus)")
     files = []
